@@ -1,3 +1,4 @@
+from . import coordapi
 from . import cycle, sidecar, proxy, store, k8s, discovery, explore, pipeline, cfgsync, inject, loop, replicas
 CHECKS = {}
 for p in cycle.PROPS:
@@ -18,3 +19,6 @@ CHECKS['C03'] = loop.check
 CHECKS['C06'] = loop.check
 CHECKS['C19'] = replicas.check
 CHECKS['C05'] = loop.check_c05
+# beyond the listed properties (evidence under /verif/evidence/extra)
+EXTRA = {'X01': coordapi.check}
+CHECKS.update(EXTRA)
